@@ -232,14 +232,16 @@ class PipeCase:
         end = None if end is None else (end if isinstance(end, E.SymInt) else E.SymInt(E.Z(end)))
         out_path = os.path.join(self.workdir, 'out.bin')
         try:
-            asm = eng.Assembler(
-                os.path.join(self.workdir, self.main), os.path.join(self.workdir, 'isa.yaml'),
-                self.binary, out_path, start, end, fill,
-                self.pretty is not None, self.pretty or 'listing', 'stdout', 0,
-                [os.path.join(self.workdir, d) for d in self.include_dirs],
-                [p for p in self.predefined if not isinstance(p, tuple)],
-            )
-            asm.assemble_bytecode()
+            import bespokeasm.__main__ as cli
+            # the real command callback: window / fill / option handling of the command line is part of the encoded code
+            cli.compile.callback(
+                asm_file=os.path.join(self.workdir, self.main), config_file=os.path.join(self.workdir, 'isa.yaml'),
+                binary=self.binary, output_file=out_path, binary_min_address=start,
+                binary_max_address=(end if end is not None else -1), binary_fill=fill,
+                pretty_print=self.pretty is not None, pretty_print_format=self.pretty or 'listing',
+                pretty_print_output='stdout', verbose=0,
+                include_path=tuple(os.path.join(self.workdir, d) for d in self.include_dirs),
+                macro_symbol=tuple(p for p in self.predefined if not isinstance(p, tuple)))
         except SystemExit as e:
             return self._outcome('exit', str(e.code), out_path)
         except Exception as e:   # noqa - crashes are outcomes, not engine failures
